@@ -110,6 +110,80 @@ def runsync_replayer(extra, path):
     return None
 
 
+CB_KINDS = ["noop", "noop", "retval", "raise", "cancel", "failfut", "failcoro", "okcoro", "addcb", "addfut", "addto", "rm", "resolve"]
+NTOP_TRACE = 12
+
+
+def random_sched_trace(args):
+    """A seeded random program on a real IOLoop, recorded as one event per specification action."""
+    tid, seed, length = args
+    rng = random.Random(seed)
+    cfg = {"off": rng.choice([0, 0, 500, 1700000000])}
+    real = D.SchedReal(cfg, variant=rng.randrange(4))
+    ev = []
+    kinds = {}          # top-level id -> how
+    timers, waiting = [], []
+    try:
+        for _ in range(length):
+            acts = ["iterate"] * 4 + ["advance"] * 2
+            if real.n < NTOP_TRACE:
+                acts += ["add_callback"] * 3 + ["add_timeout"] * 3 + ["add_future"]
+            if timers:
+                acts += ["remove"]
+            if waiting:
+                acts += ["resolve"]
+            a = rng.choice(acts)
+            if a in ("add_callback", "add_timeout", "add_future"):
+                k = rng.choice(CB_KINDS if a != "add_future" else ["noop", "raise", "addcb", "failfut"])
+                arg = 0
+                if k == "addcb":
+                    arg = rng.choice([0, 1])
+                elif k == "addto":
+                    arg = rng.choice([0, 1, 2, 3])
+                elif k == "rm":
+                    if not timers:
+                        k = "noop"
+                    else:
+                        arg = rng.choice(timers)
+                elif k == "resolve":
+                    if not waiting:
+                        k = "noop"
+                    else:
+                        arg = rng.choice(waiting)
+                i = real.n + 1
+                if a == "add_callback":
+                    args_ = [rng.choice(D.CB_FORMS), k, arg]
+                elif a == "add_timeout":
+                    args_ = [rng.choice(D.TO_FORMS), rng.choice([0, 0, 1, 2, 3, 5]), k, arg]
+                    timers.append(i)
+                else:
+                    done = rng.choice([0, 1])
+                    args_ = [done, k, arg]
+                    if not done:
+                        waiting.append(i)
+                if k == "addto":
+                    timers.append(i + 100)
+            elif a == "remove":
+                args_ = [rng.choice(timers)]
+                if args_[0] > 100 and args_[0] not in real.handles:
+                    continue                      # the child timer does not exist yet
+            elif a == "resolve":
+                args_ = [rng.choice(waiting)]
+                if real.futs[args_[0]].done():
+                    waiting.remove(args_[0])
+                    continue
+                waiting.remove(args_[0])
+            elif a == "advance":
+                args_ = [rng.choice([1, 1, 2, 3])]
+            else:
+                args_ = []
+            obs = real.step(a, args_)
+            ev.append({"a": a, "args": args_, "obs": obs})
+        return {"id": tid, "cfg": cfg, "ev": ev}
+    finally:
+        real.close()
+
+
 def run(ctx):
     global _NVAR
     _NVAR = ctx.pick(2, 4)
@@ -126,6 +200,18 @@ def run(ctx):
                                         overrides=ctx.pick({}, {"Durations": "{0, 1, 2, 3}", "Timeouts": "{0, 1, 2, 999}"})))
     ctx.note("runsync_programs", len(rs))
     ctx.replay(rs, runsync_replayer, label="s2c-runsync", nontrivial=lambda e, p: len(p) >= 1)
+    # code -> spec: random programs (up to 12 own items, all script kinds and API forms) validated by TLC
+    n = ctx.pick(300, 8000)
+    traces = framework.pool_map(random_sched_trace, [(i + 1, ctx.seed * 1000003 + i, ctx.pick(45, 60)) for i in range(n)])
+    ctx.validate("loop", "Trace_IOLoopSched", "Trace_IOLoopSched.cfg", traces, label="c2s-sched")
+    # code -> spec, real threads: several threads add_callback numbered series while the loop runs
+    m = ctx.pick(40, 1000)
+    ct = framework.pool_map(D.cross_thread_run, [(i + 1, ctx.seed * 7919 + i, 2 + i % 5, ctx.pick(30, 60)) for i in range(m)])
+    lost = [t["id"] for t in ct if t.pop("gave_up")]
+    ctx.note("cross_thread_runs", {"runs": m, "gave_up": len(lost)})
+    ctx.mc("loop", "CrossThread", "MC_CrossThread.cfg", required_actions=["Begin", "Run"])
+    ctx.validate("loop", "Trace_CrossThread", "Trace_CrossThread.cfg", ct, label="c2s-threads",
+                 sig_fn=lambda t, bad, l: {"spec": "CrossThread", "nt": t["cfg"]["nt"]})
     ctx.cov["exhaustive"] = True
     ctx.cov["rule"] = ("programs: every sequence of add_callback/spawn_callback, add_timeout (absolute, timedelta) / call_later / "
                        "call_at, add_future, resolve, remove_timeout, clock advance and single loop iteration up to the Gen "
